@@ -406,6 +406,7 @@ def py_oracle_available():
 Q4 = 'compiler-panic-dead-code-after-branch-statement'
 Q5 = 'script-completion-value-not-reset'
 Q6 = 'pending-return-value-clobbered-by-abandoned-return-in-finally'
+Q7 = 'generator-return-then-native-throw-caught-inside-generator'
 
 
 def split_try(s):
@@ -487,7 +488,7 @@ class Checker:
         self.n_b = self.n_k = self.n_v = self.n_w = 0
         self.bad = {'B': [], 'K': [], 'V': [], 'W': [], 'S': []}
         self.n_s1 = 0
-        self.known = {Q4: 0, Q5: 0, Q6: 0}
+        self.known = {Q4: 0, Q5: 0, Q6: 0, Q7: 0}
         self.known_example = {}
         self.compl_hist = {}
         self.mode_hist = {}
@@ -515,20 +516,29 @@ class Checker:
         aux = []
         for (c, g, m) in items:
             aux.append(Case(strip_dead(c.prog), c.mode, c.fatal, c.deco))
+            aux.append(Case(c.prog, 'F', c.fatal, c.deco) if c.mode == 'G' else Case(('skip',), 'F'))
         go = self.goja_b(aux) if aux else []
+        mo = self.model_lines([a.bline() for a in aux[1::2]]) if aux else []
         out = []
         for k, (c, g, m) in enumerate(items):
-            g_sd = go[k]
+            g_sd, g_f, m_f = go[2 * k], go[2 * k + 1], mo[k]
             sig = None
-            if c.mode == 'S' and value_only(g, m) and (has_do(c.prog) or nested_branch_in_finally(c.prog)):
+            if c.mode == 'S' and value_only(g, m) and (has_do(c.prog) or has(c.prog, 'brk') or has(c.prog, 'cont')):
                 # Q5: same log, both complete normally, only the script's completion VALUE differs, and the program
-                # has one of the two shapes for which goja does not reset the result register (see known finding)
+                # has a do-while or a break/continue: goja's completion-value bookkeeping (lastProducingIdx, clearResult)
+                # is static and does not follow abrupt exits nested inside statements (see known finding)
                 sig = Q5
             elif c.mode == 'S' and strip_dead(c.prog) != c.prog and g_sd == m:
                 # Q4 (root cause reported under C02): dead code after a branch statement is compiled in dummy mode and
                 # its break/continue patch locations land in REAL blocks (Go panic or overwritten instructions);
                 # the disagreement disappears when the never-executed statements are removed
                 sig = Q4
+            elif c.mode == 'S' and strip_dead(c.prog) != c.prog and value_only(g_sd, m):
+                sig = Q4 + '+' + Q5           # dead code removed: only the completion value still differs (break/continue present)
+            elif c.mode == 'G' and has(c.prog, 'ret') and throwing_iterator(c.prog) and g_f == m_f and m_f == m:
+                # Q7: generator resumed by return(); an exception raised through a Go panic (here: the iterator's
+                # next()/return()) is caught by a handler of the generator; the plain-function version agrees
+                sig = Q7
             elif c.mode in 'FG' and return_value_only(g, m) and ret_in_finally(c.prog):
                 # Q6: same log, both return, only the returned VALUE differs, and some finally block contains a return
                 sig = Q6
@@ -657,6 +667,12 @@ def return_value_only(g, m):
     return lg == lm and cg.startswith('R:') and cm.startswith('R:') and cg != cm
 
 
+def throwing_iterator(s):
+    if s[0] == 'forof' and (s[4] != 'o' or s[3] is not None):
+        return True
+    return any(throwing_iterator(c) for c in children(s))
+
+
 def ret_in_finally(s):
     if s[0] == 'try' and s[5] and has(s[6], 'ret'):
         return True
@@ -782,8 +798,12 @@ def case_sets(ctx):
                      lambda: fatal_set((0, 1), 'F', 2, 'oi')() + fatal_set((0, 1), 'S', 2, 'oi')() + fatal_set((0, 1), 'G', 2, 'oi')()
                      + fatal_set((2,), 'F', 0, 'o')()))
         sets.append(('random programs depth<=5 (full grammar, decorations) x1200', True, rand_set(1200, 1)))
-        sets.append(('every 10th (offset seed) of depth 3 core F', False,
-                     lambda: [Case(p, 'F') for p in every(chains(3, 'F', 0), 10, seed)]))
+        # depth 3 core F in ten slices (rotated by the seed): all ten together are the exhaustive depth-3 core tier;
+        # the first one is always run, the others while the time budget lasts (a quiet machine runs all)
+        for j in range(10):
+            k = (seed + j) % 10
+            sets.append(('depth 3 core F, slice %d/10 (every 10th from offset %d)' % (k, k), False,
+                         (lambda k=k: [Case(p, 'F') for p in every(chains(3, 'F', 0), 10, k)])))
         sets.append(('exhaustive depth 2 wide-minus-narrow F', False,
                      lambda: [Case(p, 'F') for p in set(chains(2, 'F', 2)) - set(chains(2, 'F', 1))]))
         sets.append(('every 12th (offset seed) of depth 3 core S and G', False,
@@ -798,10 +818,15 @@ def case_sets(ctx):
             sets.append(('exhaustive depth 3 core %s' % mode, False, exh((3,), mode, 0)))
         sets.append(('uncatchable at every position, depth 3 core F', False, fatal_set((3,), 'F', 0, 'oi')))
         sets.append(('random programs depth<=5 x20000', False, rand_set(20000, 3)))
-        sets.append(('every 2nd (offset seed) of depth 3 narrow F', False,
-                     lambda: [Case(p, 'F') for p in every(chains(3, 'F', 1), 2, seed)]))
-        sets.append(('every 5th (offset seed) of depth 4 core F', False,
-                     lambda: [Case(p, 'F') for p in every(chains(4, 'F', 0), 5, seed)]))
+        sets.append(('exhaustive depth 3 narrow F', False, exh((3,), 'F', 1)))
+        sets.append(('every 3rd (offset seed) of depth 4 core F', False,
+                     lambda: [Case(p, 'F') for p in every(chains(4, 'F', 0), 3, seed)]))
+        sets.append(('exhaustive depth 3 narrow G', False, exh((3,), 'G', 1)))
+        sets.append(('exhaustive depth 3 narrow S', False, exh((3,), 'S', 1)))
+        sets.append(('every 3rd (offset seed+1) of depth 4 core F', False,
+                     lambda: [Case(p, 'F') for p in every(chains(4, 'F', 0), 3, seed + 1)]))
+        sets.append(('every 3rd (offset seed+2) of depth 4 core F', False,
+                     lambda: [Case(p, 'F') for p in every(chains(4, 'F', 0), 3, seed + 2)]))
     return sets
 
 
